@@ -11,8 +11,10 @@ META.update({
         "create_nodal_restr (loop invariant with ghost witnesses, symbolic number of steps and mapping rows): the sparse entries are in one-to-one "
         "correspondence with the dispatch rows of the mapping, one nodal row per (node, step) that has dispatch, records (step, node) per row; (3) the "
         "portfolio appends exactly that block with b = 0 and type N (C01.asm.*), missing disp_factor filled with 1; (4) Lean 4 + Mathlib lemma: the "
-        "linear form of nodal row r is the net flow at its recorded (step, node). Bounded (never counted as proved): reported dispatch "
-        "(io.extract_output run-time contract on arbitrary result vectors), balance of optimised flat / split / structured portfolios. " + PROOF_NOTE)),
+        "linear form of nodal row r is the net flow at its recorded (step, node); (5) io.extract_output from the real source (contracts/io_output.py; arbitrary mapping satisfying WF_OP, arbitrary result vector, symbolic grid / row / variable / record counts; harness bounds: 1-2 assets with 1-2 nodes, literal names, no internal-variable rows, prices None): the reported dispatch "
+        "column of (asset, node) is, per step, the sum of x[variable] x disp_factor over the asset's dispatch rows at that node and step, one column per "
+        "asset and node. Bounded (never counted as proved): the same statement on random portfolios of ten asset kinds (run-time contract), balance of "
+        "optimised flat / split / structured portfolios. " + PROOF_NOTE)),
     'C02': dict(level='proof', assumptions=['A2', 'A3', 'A4', 'A5', 'A6'], explanation=(
         "proved: LP data of SimpleContract, Transport, Storage (bounds = rate x dt, costs incl. spread sign rule, holding cost tail sums, level rows, "
         "right-hand sides), the discount factor formula (1+wacc)^(-elapsed years), Asset.make_vector (constant / gridded array through the window's "
@@ -25,12 +27,14 @@ META.update({
         "feasibility itself is assumption A1 (external binary). ortools branch and SplitOptimProblem.optimize are not under contract. " + PROOF_NOTE)),
     'C04': dict(level='proof', assumptions=['A2', 'A3', 'A5', 'A6'], explanation=(
         "proved: Asset.dcf returns, per step, minus cost x value of the asset's variables, each counted once at the step of its first mapping row "
-        "(C04.dcf.*), under WF_OP (established by the assembly contract C07.asm.*). Bounded: io.extract_output run-time contract (DCF table, summary "
-        "value) on arbitrary result vectors; split problems (with order books: unmapped variables) and interleaved histories. " + PROOF_NOTE)),
+        "(C04.dcf.*), under WF_OP (established by the assembly contract C07.asm.*); io.extract_output from the real source (contracts/io_output.py; arbitrary mapping satisfying WF_OP, arbitrary result vector, symbolic grid / row / variable / record counts; harness bounds: 1-2 assets with 1-2 nodes, literal names, no internal-variable rows, prices None): the DCF column of an asset is its "
+        "own dcf(), the summary value is the result's value, a failed run reports the status and no table. Bounded: the same on random portfolios of ten "
+        "asset kinds; split problems (with order books: unmapped variables) and interleaved histories. " + PROOF_NOTE)),
     'C05': dict(level='proof', assumptions=['A2', 'A3', 'A5', 'A6'], explanation=(
         "proved: Storage LP data (rates = cap x dt, level rows incl. efficiency on the charge columns, cumulative inflow in the right-hand sides, end "
         "level in the last row, no-simultaneous rows and binaries whenever charge and discharge are separate variables) and Storage.fill_level = "
-        "physical level incl. inflow. Bounded: physical statements on optimised solutions over the option grid (two nodes x no-simult x efficiency "
+        "physical level incl. inflow; io.extract_output from the real source (contracts/io_output.py; arbitrary mapping satisfying WF_OP, arbitrary result vector, symbolic grid / row / variable / record counts; harness bounds: 1-2 assets with 1-2 nodes, literal names, no internal-variable rows, prices None): reported charge / discharge = sum over the "
+        "storage's dispatch rows of max(0,-x) / min(0,-x) x factor per step, reported fill level = the storage's own fill_level(). Bounded: physical statements on optimised solutions over the option grid (two nodes x no-simult x efficiency "
         "x cost; blocks, holding duration, windows), reported charge / discharge / fill level (extract_output contract). Known finding D30. " + PROOF_NOTE)),
     'C07': dict(level='proof', assumptions=['A2', 'A3', 'A5'], explanation=(
         "proved: WF_OP of SimpleContract, Transport, Storage, OrderBook, ScaledAsset (lengths, mapping rows, l<=u, steps on grid), the assembly "
@@ -61,7 +65,7 @@ META.update({
         "unsplit under inclusion of the feasible sets). Bounded: split-vs-unsplit scenarios (value, balance at all nodes, per-asset limits, step "
         "numbering, DCF accounting, order books first / last, unsolvable interval). " + PROOF_NOTE)),
     'C17': dict(level='other', assumptions=['A1', 'A2', 'A3', 'A5', 'A6'], explanation="proved: costs_only returns exactly the cost vector of the full set-up for the classes under contract and the portfolio concatenation; robust target: one epigraph variable, one constraint -c_s@x >= DCF_min per sample after all rows, objective = epigraph variable, reported value under own costs. make_slp is not under contract: bounded block structure + EEV <= V_slp <= wait-and-see on real solves (incl. non-dispatch future variables)."),
-    'C18': dict(level='other', assumptions=['A1', 'A2', 'A3', 'A5', 'A6'], explanation="proved: the N dual is the dual of the N-class constraint; create_nodal_restr records (step, node) of every nodal row in row order; the portfolio's record lists all rows of type N (structured assets' first). Bounded: extract_output places -dual at the recorded (step, node); supergradient inequality on re-optimised portfolios (gapped activity, structured assets)."),
+    'C18': dict(level='other', assumptions=['A1', 'A2', 'A3', 'A5', 'A6'], explanation="proved: the N dual is the dual of the N-class constraint; create_nodal_restr records (step, node) of every nodal row in row order; the portfolio's record lists all rows of type N (structured assets' first); io.extract_output from the real source (contracts/io_output.py; arbitrary mapping satisfying WF_OP, arbitrary result vector, symbolic grid / row / variable / record counts; harness bounds: 1-2 assets with 1-2 nodes, literal names, no internal-variable rows, prices None): the price reported at (step, 'nodal price: ' + node) of every recorded nodal row is minus its dual, no other nodal price cell is set, none at all without duals. Bounded: the same on random portfolios; supergradient inequality on re-optimised portfolios (gapped activity, structured assets)."),
     'C19': dict(level='proof', assumptions=['A2', 'A3', 'A4', 'A5'], explanation=(
         "proved under A4 (pandas date_range: Tick frequency = start + k*delta; anchored: strictly increasing inside [start,end]): root grid, "
         "same-frequency restricted grid, coarse restricted grid (Tick), Timegrid.values_to_grid (value of the unique containing interval, NaN outside, "
